@@ -144,6 +144,26 @@ class Effects:
         self._globals = out
         return out
 
+    def all_globals(self):
+        """every module-level / class-level simple assignment: 'mod.NAME' / 'mod.Class.NAME' -> value node"""
+        if getattr(self, "_all_globals", None) is not None:
+            return self._all_globals
+        out = {}
+        for mn, m in self.prog.modules.items():
+            def scan(body, prefix):
+                for st in body:
+                    if isinstance(st, ast.Assign):
+                        for t in st.targets:
+                            if isinstance(t, ast.Name):
+                                out[f"{mn}.{prefix}{t.id}"] = st.value
+                    elif isinstance(st, ast.AnnAssign) and isinstance(st.target, ast.Name) and st.value is not None:
+                        out[f"{mn}.{prefix}{st.target.id}"] = st.value
+                    elif isinstance(st, ast.ClassDef):
+                        scan(st.body, prefix + st.name + ".")
+            scan(m.tree.body, "")
+        self._all_globals = out
+        return out
+
     def _is_mutable_literal(self, m, val):
         if isinstance(val, (ast.List, ast.Dict, ast.Set, ast.ListComp, ast.DictComp, ast.SetComp)):
             return True
@@ -867,6 +887,48 @@ def _memo_store(prog, ef):
     return False
 
 
+def _immutable_part(lit, path, siblings=None, qual=""):
+    """the part of a module-level literal reached by `path` ('[]' = an element): is everything that can be handed out immutable
+    (numbers, strings, None, tuples of such)?  The literal itself (a list / dict) is not; its constant elements are"""
+    if lit is None:
+        return False
+
+    def immutable(n, depth=0):
+        if isinstance(n, ast.Constant):
+            return True
+        if isinstance(n, ast.UnaryOp) and isinstance(n.operand, ast.Constant):
+            return True
+        if isinstance(n, ast.Tuple):
+            return all(immutable(e, depth + 1) for e in n.elts)
+        if isinstance(n, ast.Name) and siblings is not None and depth < 4:
+            # a name of the same class / module body bound to an immutable literal (a tuple of names shared by several rows of a table)
+            scope = qual.rsplit(".", 1)[0]
+            while scope:
+                v = siblings.get(f"{scope}.{n.id}")
+                if v is not None:
+                    return immutable(v, depth + 1)
+                scope = scope.rsplit(".", 1)[0] if "." in scope else ""
+        return False
+
+    nodes = [lit]
+    steps = [p for p in path]
+    if not steps or any(p != "[]" for p in steps):
+        return False
+    for _ in steps:
+        nxt = []
+        for n in nodes:
+            if isinstance(n, ast.Dict):
+                nxt.extend(n.values)
+            elif isinstance(n, (ast.List, ast.Tuple, ast.Set)):
+                nxt.extend(n.elts)
+            elif isinstance(n, ast.Constant) and isinstance(n.value, str):
+                nxt.append(n)  # a character of a string
+            else:
+                return False
+        nodes = nxt
+    return bool(nodes) and all(immutable(n) for n in nodes)
+
+
 def analyse(prog, entries, report_param_for=None):
     """entries: qualified names of the property's functions.  -> Report"""
     eff = Effects(prog)
@@ -905,6 +967,8 @@ def analyse(prog, entries, report_param_for=None):
             written.setdefault(g, []).append((q, n))
         for o in s.ret:
             rep.sites += 1
+            if o.kind == "global" and _immutable_part(eff.mutable_globals().get(o.name), o.path, eff.all_globals(), o.name):
+                continue  # an element of a literal table whose elements are constants / tuples of constants: nothing a caller could change
             if o.kind == "global":
                 rep.items.append({"kind": "E-share", "fn": q, "root": o.root(), "src": q, "op": "return", "node": fn, "module": m,
                                   "message": f"the function returns an object that is (part of) module/class-level state `{o.name}`: every caller "
